@@ -62,7 +62,8 @@ Inductive validator :=
 | VOrientation                                (* check_format_input_orientation(inp, init_format=True) *)
 | VFieldFunc                                  (* validate_field_func(val) behind _editable_field_func *)
 | VMemberSet (opts : list string)             (* `if val not in {..}: raise MagpylibBadUserInput` *)
-| VMemberTuple (opts : list string).          (* `if val not in (..)` *)
+| VMemberTuple (opts : list string)           (* `if val not in (..)` *)
+| VMemberStr (opts : list string).            (* `if not isinstance(val, str) or val not in {..}` *)
 
 (* one property setter (or constructor-only check) of one class *)
 Record setter_row := mkSetter {
